@@ -401,6 +401,8 @@ class Interp:
         """Python == ; returns python bool or z3 Bool."""
         if a is None or b is None:
             return a is None and b is None
+        if isinstance(a, ClassVal) or isinstance(b, ClassVal):
+            return isinstance(a, ClassVal) and isinstance(b, ClassVal) and a.info is b.info
         if isinstance(a, Obj) or isinstance(b, Obj):
             if isinstance(a, Obj) and isinstance(b, Obj):
                 for o in (a, b):
@@ -525,6 +527,9 @@ class Interp:
             if z3.is_expr(b) and z3.is_bool(b) and isinstance(a, bool):
                 return b if a else z3.Not(b)
             return False
+        if isinstance(a, ClassVal) or isinstance(b, ClassVal):
+            # class objects are compared by the class they stand for (type(x) builds a new wrapper each time)
+            return isinstance(a, ClassVal) and isinstance(b, ClassVal) and a.info is b.info
         if isinstance(a, Obj) or isinstance(b, Obj):
             return a is b
         if isinstance(a, str) and isinstance(b, str):
@@ -594,6 +599,8 @@ class Interp:
             self.raise_("TypeError", "arithmetic with None", implicit=True)
         if not (_isnum(a) and _isnum(b)):
             raise OutOfSubset(f"binop {type(op).__name__} on {type(a).__name__},{type(b).__name__}")
+        if a is INF or b is INF:
+            raise OutOfSubset("arithmetic on an infinity")
         if a is NAN or b is NAN:
             return NAN
         if not isinstance(a, Num) and not isinstance(b, Num):
@@ -605,7 +612,10 @@ class Interp:
             if self.ps.decide(bz == 0, "div0"):
                 # python raises; numpy scalars give inf/nan with a warning
                 if self.ps.decide(zbool(isnp), "npdiv"):
-                    return NAN
+                    # numpy: 0 / 0 = nan, anything else / 0 = +-inf (RuntimeWarning only)
+                    if self.ps.decide(zreal(a) == 0, "np0div0"):
+                        return NAN
+                    return INF
                 self.raise_("ZeroDivisionError", "division by zero", implicit=True)
             return Num(zreal(a) / bz, (True, isnp))
         isfloat = b_or(ta[0], tb[0])
